@@ -23,19 +23,35 @@ fn verif_witness_search_errors() {
     ("argument of the wrong type", "class Main { function f(a: int): int = a function main(): unit = { let _ = Main.f(true); } }"),
     ("wrong return type", "class Main { function f(): int = true function main(): unit = {} }"),
   ];
-  for (what, text) in programs {
+  let lib = "class Account(private val balance: int) {\n  function open(): Account = Account.init(42)\n  private method secret(): int = this.balance\n  method visible(): int = this.secret()\n}\nclass Bank {\n  function account(): Account = Account.open()\n}\nprivate class Hidden { function f(): int = 1 }";
+  let two_modules: [(&str, &str); 4] = [
+    ("private method of a class of another module, used from a class with the same name", "import { Bank } from Lib\nclass Account { function peek(): int = Bank.account().secret() }\nclass Main { function main(): unit = {} }"),
+    ("private field of a class of another module, used from a class with the same name", "import { Bank } from Lib\nclass Account { function peek(): int = Bank.account().balance }\nclass Main { function main(): unit = {} }"),
+    ("private method of a class of another module", "import { Bank } from Lib\nclass Main { function main(): unit = { let _ = Bank.account().secret(); } }"),
+    ("private class of another module", "import { Hidden } from Lib\nclass Main { function main(): unit = { let _ = Hidden.f(); } }"),
+  ];
+  let mut all: Vec<(&str, Vec<(&str, &str)>)> = programs.iter().map(|(w, t)| (*w, vec![("Demo", *t)])).collect();
+  for (w, t) in two_modules {
+    all.push((w, vec![("Lib", lib), ("Demo", t)]));
+  }
+  for (what, modules) in all.iter() {
     let heap = &mut Heap::new();
-    let mod_ref = heap.alloc_module_reference_from_string_vec(vec!["Demo".to_string()]);
-    let mut sources = HashMap::from([(mod_ref, text.to_string())]);
+    let mut sources = HashMap::new();
+    let mut entry = None;
+    for (name, text) in modules {
+      let mod_ref = heap.alloc_module_reference_from_string_vec(vec![name.to_string()]);
+      sources.insert(mod_ref, text.to_string());
+      entry = Some(mod_ref);
+    }
     for (m, s) in samlang_parser::builtin_std_raw_sources(heap) {
       sources.insert(m, s);
     }
-    if compile_sources(heap, sources, vec![mod_ref], false).is_ok() {
-      println!("WITNESS: a program with a static error ({what}) is compiled: {text}");
+    if compile_sources(heap, sources, vec![entry.unwrap()], false).is_ok() {
+      println!("WITNESS: a program with a static error ({what}) is compiled: {}", modules.iter().map(|(n, t)| format!("[{n}.sam] {}", t.replace('\n', " "))).collect::<Vec<_>>().join(" "));
       return;
     }
   }
-  println!("WITNESS-SEARCH: no violating history found (14 erroneous programs)");
+  println!("WITNESS-SEARCH: no violating history found (18 erroneous programs)");
 }
 
 // Witness search for unit `loopvars` (C01): self tail calls that permute or shift their parameters; the
